@@ -76,8 +76,18 @@ def run(env, rep):
                   "format %s: extended timestamp present iff the 24-bit field is in %s on both sides" % (vn, sorted(wsets)),
                   "format %s: the writer adds the extended timestamp when the field is in %s, the reader expects it when the field is in %s" % (vn, sorted(wsets), sorted(rsets)),
                   m.b["add_chunk"].span)
-        # both sides must look at the header's 24-bit field, not at another quantity
-        rvars = {re.match(r"^\((.*) (Lt|Le|Gt|Ge|Eq|Ne) \d+\)$", t[1]).group(1) for sh in rext[1] for t in sh[1] if re.match(r"^\((.*) (Lt|Le|Gt|Ge|Eq|Ne) \d+\)$", t[1])}
+        # both sides must look at the header's 24-bit field, not at another quantity: a variable decides the presence
+        # of the field if the paths that read it do not cover the variable's whole range
+        cand = {re.match(r"^\((.*) (Lt|Le|Gt|Ge|Eq|Ne) \d+\)$", t[1]).group(1) for sh in rext[1] for t in sh[1] if re.match(r"^\((.*) (Lt|Le|Gt|Ge|Eq|Ne) \d+\)$", t[1])}
+        rvars = set()
+        for v in cand:
+            ivs = [chunk.interval_from_decisions([t for t in sh[1] if v in t[1]], v[-40:]) for sh in rext[1] if m._kinds(sh[0])]
+            lo = min(i[0] for i in ivs) if ivs else 0
+            hi = max(i[1] for i in ivs) if ivs else 4294967295
+            covered = sorted(ivs)
+            full = lo == 0 and hi == 4294967295 and all(covered[i][1] + 1 >= covered[i + 1][0] for i in range(len(covered) - 1))
+            if not full:
+                rvars.add(v)
         rep.check("C01.R2", "ext-scrutinee:%s" % vn, all(v.endswith("current_header.timestamp_field)") for v in rvars) and bool(rvars),
                   "format %s: the reader's test is on current_header.timestamp_field" % vn,
                   "format %s: the reader decides on %s whether an extended timestamp follows; the writer decides on the 24-bit timestamp field" % (vn, sorted(rvars)), m.b["get_next"].span)
